@@ -267,3 +267,145 @@ SPECS = [
  dict(name='C17.R1-cancelled-pass-not-running', rule='C17.R1', why='seed C17/b',
       edits=[('store/hstore.go', '		if _, exists := store.gcMgr.stat[bkt]; exists {\n			err := fmt.Errorf', '		if st, exists := store.gcMgr.stat[bkt]; exists && !st.CancelFlag {\n			err := fmt.Errorf')]),
 ]
+SPECS += [
+ dict(name='C08.R8-get-item-offset', rule='C08.R8', why='SliceHeader.Get reads the item at a fixed offset 8',
+      edits=[('store/leaf.go', '		bytesToItem(leaf[idx+Conf.TreeKeyHashLen:], &req.item)', '		bytesToItem(leaf[idx+8:], &req.item)')]),
+ dict(name='C08.R8-remove-offset-only-rule', rule='C08.R8', why='Remove ignores the wildcard chunk',
+      edits=[('store/leaf.go', '		if oldPos.ChunkID == -1 || oldm.Pos.Offset == oldPos.Offset {', '		if oldm.Pos.Offset == oldPos.Offset {')]),
+ dict(name='C12.R10-sub-count-zero', rule='C12.R10', why='SubSizeAndCount forgets the count',
+      edits=[('cmem/cmem.go', '	rl.SubSize(size)\n	rl.SubCount(1)', '	rl.SubSize(size)\n	rl.SubCount(0)')]),
+ dict(name='C12.R10-free-not-idempotent', rule='C12.R10', why='CArray.Free does not reset Addr',
+      edits=[('cmem/cmem.go', '		arr.Body = nil\n		arr.Addr = 0\n		arr.Cap = 0', '		arr.Body = nil\n		arr.Cap = 0')]),
+ dict(name='C09.R7-vsz-from-cap', rule='C09.R7', why='header vsz taken from the buffer capacity',
+      edits=[('store/datafile.go', '		vsz: uint32(len(rec.Payload.Body)),', '		vsz: uint32(rec.Payload.Cap),')]),
+ dict(name='C09.R7-zero-key-valid', rule='C09.R7', why='IsValidKeySize accepts 0',
+      edits=[('config/mc_config.go', '	return ksz != 0 && ksz <= uint32(MCConf.MaxKeyLen)', '	return ksz <= uint32(MCConf.MaxKeyLen)')]),
+ dict(name='C01.R10-tree-item-zero-vhash', rule='C01.R10', why='HTree.get drops the value hash',
+      edits=[('store/htree.go', '	meta = &Meta{0, 0, req.item.Ver, req.item.Vhash, 0}', '	meta = &Meta{0, 0, req.item.Ver, 0, 0}')]),
+ dict(name='C01.R10-delete-not-found-error', rule='C01.R10', why='NOT_FOUND of a delete becomes an error',
+      edits=[('gobeansdb/store.go', '		if err.Error() == "NOT_FOUND" {\n			return false, nil\n		} else {', '		if err.Error() == "NOT_FOUND" {\n			return false, err\n		} else {')]),
+ dict(name='C11.R10-no-end', rule='C11.R10', why='END dropped after the VALUE items',
+      edits=[('memcache/protocol.go', '			WriteFull(w, []byte("\\r\\n"))\n		}\n		io.WriteString(w, "END\\r\\n")\n', '			WriteFull(w, []byte("\\r\\n"))\n		}\n')]),
+ dict(name='C11.R10-value-header-cap', rule='C11.R10', why='VALUE header announces the buffer capacity',
+      edits=[('memcache/protocol.go', '				fmt.Fprintf(w, "VALUE %s %d %d\\r\\n", key, item.Flag,\n					len(item.Body))', '				fmt.Fprintf(w, "VALUE %s %d %d\\r\\n", key, item.Flag,\n					item.Cap)')]),
+ dict(name='C02.R7-islarger-strict', rule='C02.R7', why='isLarger uses > on the split',
+      edits=[('store/hint.go', '	return (ck > id.Chunk) || (ck == id.Chunk && sp >= id.Split)', '	return (ck > id.Chunk) || (ck == id.Chunk && sp > id.Split)')]),
+ dict(name='C13.R9-buffer-collision-late', rule='C13.R9', why='round-2 seed C13/a',
+      edits=[('store/hint.go', '''		if key != h.items[idx].Key {
+			iscollision = true
+			var keys map[string]int
+			keys, found = h.collisions[keyhash]
+			if found {
+				idx, found = keys[key]
+			}
+		}
+	}
+	if found {
+		it = h.items[idx]
+	}
+	return''', '''		if key != h.items[idx].Key {
+			var keys map[string]int
+			keys, found = h.collisions[keyhash]
+			if found {
+				iscollision = true
+				idx, found = keys[key]
+			}
+		}
+	}
+	if found {
+		it = h.items[idx]
+	}
+	return''')]),
+ dict(name='C13.R10-ok-means-key-known', rule='C13.R10', why='round-2 seed C13/b',
+      edits=[('store/collision.go', '''	items, ok := table.Items[keyhash]
+	if ok {
+		if it, ok2 := items[key]; ok2 {
+			item = &it
+		}
+	}
+	return''', '''	items, ok := table.Items[keyhash]
+	if ok {
+		var it HintItem
+		if it, ok = items[key]; ok {
+			item = &it
+		}
+	}
+	return''')]),
+ dict(name='C13.R6b-last-group-only-with-writer', rule='C13.R6b', why='round-2 seeds C13/c, C14/a',
+      edits=[('store/hintmerge.go', '	mw.flush()\n	if mw.w != nil {\n		mw.w.close()', '	if mw.w != nil {\n		mw.flush()\n		mw.w.close()')]),
+ dict(name='C14.R9-index-row-hole', rule='C14.R9', why='round-2 seed C14/c',
+      edits=[('store/hintindex.go', '''	idx.index[idx.currRow][idx.currCol] = hintIndexItem{keyhash, offset}
+	idx.lastoffset = offset
+	if idx.currCol >= HINTINDEX_ROW_SIZE-1 {
+		idx.currRow += 1
+		idx.index[idx.currRow] = make([]hintIndexItem, HINTINDEX_ROW_SIZE)
+		idx.currCol = 0
+	} else {
+		idx.currCol += 1
+	}''', '''	if idx.currCol >= HINTINDEX_ROW_SIZE-1 {
+		idx.currRow += 1
+		idx.index[idx.currRow] = make([]hintIndexItem, HINTINDEX_ROW_SIZE)
+		idx.currCol = 0
+	}
+	idx.index[idx.currRow][idx.currCol] = hintIndexItem{keyhash, offset}
+	idx.lastoffset = offset
+	idx.currCol += 1''')]),
+ dict(name='C15.R7-route-signed-byte', rule='C15.R7', why='round-2 seed C15/a',
+      edits=[('config/route.go', 'strconv.ParseInt(str, 16, 16)', 'strconv.ParseInt(str, 16, 8)')]),
+ dict(name='C15.R8-scan-marks-served', rule='C15.R8', why='round-2 seed C15/c',
+      edits=[('store/hstore.go', '			store.buckets[id].State = BUCKET_STAT_NOT_EMPTY\n', '			store.buckets[id].State = BUCKET_STAT_NOT_EMPTY\n			Conf.BucketsStat[id] = BUCKET_STAT_NOT_EMPTY\n')]),
+ dict(name='C16.R4b-crc-skips-one-byte', rule='C16.R4b', why='round-2 seed C16/c',
+      edits=[('store/crc32.go', 'func (h *crc32) write(data []byte) {\n', 'func (h *crc32) write(data []byte) {\n	if len(data) <= 1 {\n		return\n	}\n')]),
+ dict(name='C17.R7-web-default-zero', rule='C17.R7', why='round-2 seed C17/c',
+      edits=[('gobeansdb/web.go', 'getFormValueInt(r, "nogcdays", -1)', 'getFormValueInt(r, "nogcdays", 0)')]),
+ dict(name='C18.R3b-gap-ends-pass', rule='C18.R3b', why='round-2 seed C18/c',
+      edits=[('store/gc.go', '			logger.Infof("skip empty chunk %d", gc.Src)\n			continue', '			logger.Infof("no more data %d", gc.Src)\n			break')]),
+ dict(name='C05.R5-forgc-overwrites-limit', rule='C05.R5', why='round-2 seed C05/a',
+      edits=[('store/hint.go', '''	maxDumpableChunkID := h.maxDumpableChunkID
+	if forGC {
+		maxDumpableChunkID = MAX_NUM_CHUNK - 1
+	}
+
+	for i := 0; i <= maxDumpableChunkID; i++ {''', '''	if forGC {
+		h.maxDumpableChunkID = MAX_NUM_CHUNK - 1
+	}
+
+	for i := 0; i <= h.maxDumpableChunkID; i++ {''')]),
+ dict(name='C02.R4b-startsp-carried-over', rule='C02.R4b', why='round-2 seed C06/b',
+      edits=[('store/bucket.go', '''	for i := bkt.TreeID.Chunk; i < MAX_NUM_CHUNK; i++ {
+		startsp := 0
+		if i == bkt.TreeID.Chunk {
+			startsp = bkt.TreeID.Split + 1
+		}''', '''	startsp := bkt.TreeID.Split + 1
+	for i := bkt.TreeID.Chunk; i < MAX_NUM_CHUNK; i++ {'''),
+             ('store/bucket.go', '			bkt.hints.maxDumpedHintID = HintID{i, startsp + j}\n		}\n	}', '			bkt.hints.maxDumpedHintID = HintID{i, startsp + j}\n		}\n		startsp = 0\n	}')]),
+ dict(name='C10.R6-go-decoder-assumes-9', rule='C10.R6', why='round-2 seed C10/c',
+      edits=[]),
+ dict(name='C12.R9-diff-after-decompress', rule='C12.R9', why='round-2 seed C12/a',
+      edits=[('store/datachunk.go', '		cmem.DBRL.GetData.AddSize(res.Payload.DiffSizeAfterDecompressed())\n		res.Payload.Decompress()', '		res.Payload.Decompress()\n		cmem.DBRL.GetData.AddSize(res.Payload.DiffSizeAfterDecompressed())')]),
+ dict(name='C13.R3b-collision-chunk-dropped', rule='C13.R3b', why='round-2 seed C03/c',
+      edits=[('store/hint.go', '	} else if it != nil {\n		ChunkID = it.Pos.ChunkID\n	}\n	return', '	}\n	return')]),
+ dict(name='C10.R2-free-before-hash', rule='C10.R2', why='round-2 seed C10/b',
+      edits=[('store/bucket.go', '		vhash := Getvhash(p.Body)\n		p.Free()', '		p.Free()\n		vhash := Getvhash(p.Body)')]),
+ dict(name='C09.R4-discard-always', rule='C09.R4', why='round-2 seed C02/c',
+      edits=[('store/datafile.go', '	tail := recsizereal & 0xff\n	if tail != 0 {\n		stream.rbuf.Discard(int(PADDING - tail))\n	}', '	stream.rbuf.Discard(int(PADDING - recsizereal&0xff))')]),
+ dict(name='C02.R1b-close-flushes-only-previous', rule='C02.R1b', why='round-2 seed C02/a',
+      edits=[('store/bucket.go', '''	for i := 0; i < bkt.datas.newHead; i++ {
+		ck := &bkt.datas.chunks[i]
+		ck.Lock()
+		n := len(ck.wbuf)
+		ck.Unlock()
+		if n > 0 {
+			bkt.datas.flush(i, true)
+		}
+	}''', '''	if i := bkt.datas.newHead - 1; i >= 0 {
+		ck := &bkt.datas.chunks[i]
+		ck.Lock()
+		n := len(ck.wbuf)
+		ck.Unlock()
+		if n > 0 {
+			bkt.datas.flush(i, true)
+		}
+	}''')]),
+]
+SPECS = [s for s in SPECS if s['edits']]
